@@ -22,7 +22,11 @@ def make_field(E, cfg):
     d, nv = cfg['ndim'], cfg['nvdim']
     m, assume = sym_mesh(E, d, prefix='fm', tf=1e-12, cellcond=True)
     vd = ['p', 'q', 'r'][:nv] if nv > 1 else None
-    f, assume = sym_field(E, d, nv, mesh=m, assume=assume, unit='T', vdims=vd, mapping=(dict(zip(vd, reversed(DIMS[:d]))) if (vd and nv == d) else {}))
+    kw = {}
+    if cfg.get('adtype'):
+        # a field declared with dtype=int holding integers: integrals and means are real numbers all the same
+        kw = {'adtype': cfg['adtype'], 'dtype': TypeTag(cfg['adtype'])}
+    f, assume = sym_field(E, d, nv, mesh=m, assume=assume, unit='T', vdims=vd, mapping=(dict(zip(vd, reversed(DIMS[:d]))) if (vd and nv == d) else {}), **kw)
     return f, assume
 
 
@@ -48,6 +52,8 @@ class Integrate(Contract):
                     out.append({'ndim': d, 'nvdim': nv, 'kind': 'direction', 'axis': ax})
                     out.append({'ndim': d, 'nvdim': nv, 'kind': 'cumulative', 'axis': ax})
         out += [{'ndim': 2, 'nvdim': 3, 'kind': 'cumulative_total'}, {'ndim': 2, 'nvdim': 3, 'kind': 'bad_type'}, {'ndim': 2, 'nvdim': 3, 'kind': 'unknown_dim'}]
+        out += [{'ndim': 2, 'nvdim': 1, 'kind': 'total', 'adtype': 'int'}, {'ndim': 2, 'nvdim': 3, 'kind': 'direction', 'axis': 1, 'adtype': 'int'},
+                {'ndim': 1, 'nvdim': 1, 'kind': 'direction', 'axis': 0, 'adtype': 'int'}, {'ndim': 2, 'nvdim': 1, 'kind': 'cumulative', 'axis': 0, 'adtype': 'int'}]
         return out
 
     def pre_state(s, E, cfg):
@@ -118,6 +124,16 @@ class Integrate(Contract):
             P = cs.ghost_prefix[0]
             full = list(idx) + [c]
             pre = P(*[I(i) for i in full])          # P(.., k, ..) = sum of the cells before k along the axis
+            if getattr(E, 'valuation', None) is not None and all(isinstance(i, int) for i in full):
+                # concrete data (replay of a counter-model on the real code): the sum of the preceding cells itself
+                import fractions
+                tot = fractions.Fraction(0)
+                for t in range(full[ax]):
+                    ii = list(full)
+                    ii[ax] = t
+                    x = arr.at(E, ii)
+                    tot += x if isinstance(x, fractions.Fraction) else fractions.Fraction(float(tofloat(x)))
+                pre = z3.RealVal(str(tot))
             out.append(('cumulative integral at cell k == cell length * (sum of the preceding cells + half the own value)',
                         R(result.attrs['_array'].at(E, full)) == R(cell[ax]) * (pre + R(arr.at(E, full)) / 2)))
         out.append(('number of components kept', result.attrs['_nvdim'] == nv))
@@ -144,6 +160,7 @@ class Mean(Contract):
                 if d == 3:
                     out += [{'ndim': 3, 'nvdim': nv, 'dirs': (2, 0)}, {'ndim': 3, 'nvdim': nv, 'dirs': (0, 1)}]
         out += [{'ndim': 2, 'nvdim': 3, 'dirs': (0, 0)}, {'ndim': 2, 'nvdim': 3, 'dirs': 'bad_type'}, {'ndim': 2, 'nvdim': 3, 'dirs': 'unknown_dim'}]
+        out += [{'ndim': 2, 'nvdim': 1, 'dirs': None, 'adtype': 'int'}, {'ndim': 2, 'nvdim': 3, 'dirs': 1, 'adtype': 'int'}, {'ndim': 1, 'nvdim': 1, 'dirs': 0, 'adtype': 'int'}]
         return out
 
     def pre_state(s, E, cfg):
